@@ -248,15 +248,20 @@ def check_forms_oracle(ctx, texts):
             bodies.append(bytes(Boc(t).data))
         except Exception:
             pass
+    # every spelling of the hex form that bytes.fromhex reads: lower / upper / mixed case, blanks between the bytes
+    spell = {'hex': lambda b: b.hex(), 'base64': lambda b: base64.b64encode(b).decode(), 'hex-upper': lambda b: b.hex().upper(),
+             'hex-mixed': lambda b: ''.join(c.upper() if i % 3 == 0 else c for i, c in enumerate(b.hex())),
+             'hex-spaced': lambda b: ' '.join(b.hex()[i:i + 2] for i in range(0, 2 * len(b), 2)),
+             'hex-upper-first': lambda b: b.hex()[:8].upper() + b.hex()[8:]}
     for b in bodies:
-        for form in ('hex', 'base64'):
+        for form, f in spell.items():
             try:
-                got = bytes(Boc(form_of(b, form)).data)
+                got = bytes(Boc(f(b)).data)
             except Exception as e:
                 got = repr(e)
             ctx.case(('forms-oracle', form, b), nontrivial=True)
             if got != b:
-                ctx.fail(f'forms:{form}', f'Boc({form} text of a byte string).data differs from the byte string', {'bytes': b.hex(), 'form': form}, str(got)[:80], b.hex())
+                ctx.fail(f'forms:{form}', f'Boc({form} text of a byte string).data differs from the byte string', {'bytes': b.hex(), 'form': form, 'text': f(b)[:200]}, str(got)[:80], b.hex())
 
 
 def src_search(ctx):
@@ -295,6 +300,7 @@ def run(ctx):
     for r in range(0, 30, 4):
         check_case(ctx, f'inner{r}', nodes, r)
     check_forms_model(ctx, ctx.rng)
+    check_forms_oracle(ctx, [])         # hex in every spelling bytes.fromhex reads, base64: Boc(text).data = the bytes
 
 
 def replay(ctx, payload):
